@@ -192,6 +192,9 @@ def run_case(case, ctx):
     img = rng.integers(0, hi + 1, (nb, H, W)).astype(dtype)
     nk = ["default", "int", "nan", "inf", "-inf", "nan-none", "int-none"][int(rng.integers(0, 7))]
     mixed = False
+    if case["i"] == 0:
+        nk, dtype = ["nan", "inf", "-inf"][case["part"] % 3], "float32"
+        img = img.astype(np.float32)
     d = os.path.join(ctx.workdir, f"r{case['i']}")
     cfg = {}
     if nk == "int":
@@ -204,7 +207,7 @@ def run_case(case, ctx):
         img = img.astype(np.float32)
         img[sel] = val
         cfg["nodata"] = float(val)
-        if rng.random() < 0.6:
+        if rng.random() < 0.6 or case["i"] == 0:
             # non-finite samples of the OTHER kinds are ordinary samples: they are not no-data and stay as they are
             others = [v for v in (np.nan, np.inf, -np.inf) if not (v == val or (np.isnan(v) and np.isnan(val)))]
             sel2 = (rng.random(img.shape) < 0.08) & ~sel
